@@ -27,8 +27,8 @@ func init() {
 			"nothing is demanded of the destination's content after a failed call",
 		},
 		Strata: []fw.Stratum{
-			{Name: "packet-marshalto", N: fw.Const(20000, 500000), Run: c04Packet},
-			{Name: "header-marshalto", N: fw.Const(15000, 400000), Run: c04Header},
+			{Name: "packet-marshalto", N: fw.Const(80000, 800000), Run: c04Packet},
+			{Name: "header-marshalto", N: fw.Const(60000, 600000), Run: c04Header},
 		},
 	})
 }
